@@ -120,6 +120,11 @@ pub(crate) fn extend_node_properties_from_store(
     }
 
     for (key_name, blob_id) in to_fetch {
+        // The store keeps every sunk version of a property under the same key, newest first:
+        // only the first entry of a key is its current value.
+        if props.contains_key(&key_name) {
+            continue;
+        }
         let storage_val = decode_property_blob(pager, blob_id)?;
         props.insert(key_name, storage_val);
     }
@@ -173,6 +178,11 @@ pub(crate) fn extend_edge_properties_from_store(
     }
 
     for (key_name, blob_id) in to_fetch {
+        // The store keeps every sunk version of a property under the same key, newest first:
+        // only the first entry of a key is its current value.
+        if props.contains_key(&key_name) {
+            continue;
+        }
         let storage_val = decode_property_blob(pager, blob_id)?;
         props.insert(key_name, storage_val);
     }
